@@ -1028,6 +1028,14 @@ def d_pop(R, recv, args, kw, node):
     return args[1]
 
 
+@method("dict", "copy")
+def d_copy(R, recv, args, kw, node):
+    """d.copy(): a NEW dict with the same keys and values (shallow)"""
+    m = R.content(recv, R.old_heap)
+    dt = T.Dict(m.t.k, m.t.v, ordered=True)
+    return dict_from_parts(R, dt, m.t.has(m.z), m.t.val(m.z), "dcopy")
+
+
 @method("dict", "clear")
 def d_clear(R, recv, args, kw, node):
     m, has, vals = _dict_parts(R, recv)
